@@ -3,7 +3,7 @@ NOT_APPLICABLE = {}
 TEXTS = {
  "C05": {
   "technique": "fault injection driven by property-based generation (rapid): generated commit histories x exhaustive store-failure plans in-process, and kill points / errno injection at every traced file system call of a child process under strace, plus a trace-shape check for power-loss safety",
-  "level_text": "Fault enumeration over generated commit histories: all 3^n store-failure plans per history in-process; for the real file store a child process is killed before each traced file system call (sampled in the quick tier, all in the thorough tier) and has errno failures injected, and the parent checks with lungo's own loader that the file is exactly the old or the new state, that acknowledged commits survive, that errors are reported and recovered from; the traced protocol is checked against the conditions that make it safe under a POSIX-style power-loss model.",
+  "level_text": "Fault enumeration over generated commit histories: all 3^n store-failure plans per history in-process; for the real file store a child process is killed before each traced file system call (sampled in the quick tier, all in the thorough tier) and has errno failures injected, and the parent checks with lungo's own loader that the file is exactly the old or the new state, that acknowledged commits survive, that errors are reported and recovered from; the traced protocol is checked against the conditions that make it safe under a POSIX-style power-loss model; and after every call of generated driver-call histories on the file store (incl. commits that truncate the change log) the file loaded by a fresh store equals the state the clients see.",
   "level_note": "Needs strace (pre-installed). Power loss is decided on the syscall protocol (temp file, fsync before rename, directory fsync), not on block-device states; kills are at syscall granularity.",
  },
  "C16": {
